@@ -403,7 +403,26 @@ def t_chaincmp(fn):
     return new if hit[0] else None
 
 
-MODES = {"unternary": t_unternary, "inset": t_inset, "chaincmp": t_chaincmp, "retbool": t_retbool, "extracttail": t_extracttail, "inlinetmp": t_inlinetmp, "augexpand": t_augexpand, "elsify": t_elsify, "kwargify": t_kwargify, "rename": t_rename, "ifswap": t_ifswap, "cmpflip": t_cmpflip, "rettemp": t_rettemp}
+def t_renameparams(fn):
+    """every parameter except self / cls gets a new name (signature and body)"""
+    if has_nested(fn):
+        return None
+    params = [a.arg for a in fn.args.posonlyargs + fn.args.args + fn.args.kwonlyargs]
+    params = [p for p in params if p not in ("self", "cls")]
+    if not params or fn.args.vararg or fn.args.kwarg:
+        return None
+    new = copy.deepcopy(fn)
+    m = {p: p + "_pr" for p in params}
+    for a in ast.walk(new.args):
+        if isinstance(a, ast.arg) and a.arg in m:
+            a.arg = m[a.arg]
+    for n in ast.walk(new):
+        if isinstance(n, ast.Name) and n.id in m:
+            n.id = m[n.id]
+    return new
+
+
+MODES = {"renameparams": t_renameparams, "unternary": t_unternary, "inset": t_inset, "chaincmp": t_chaincmp, "retbool": t_retbool, "extracttail": t_extracttail, "inlinetmp": t_inlinetmp, "augexpand": t_augexpand, "elsify": t_elsify, "kwargify": t_kwargify, "rename": t_rename, "ifswap": t_ifswap, "cmpflip": t_cmpflip, "rettemp": t_rettemp}
 
 
 def splice(src, fn, new):
